@@ -392,6 +392,35 @@ def parse_iv(line):
     return out
 
 
+def f32_of(x):
+    """the single-precision number nearest to x (ties to even), as a Python float"""
+    import struct
+    from fractions import Fraction
+    try:
+        return struct.unpack("f", struct.pack("f", float(x)))[0] if abs(Fraction(x)) < 2 ** 53 else float(x)
+    except (OverflowError, ValueError):
+        return float(x)
+
+
+def canon_zoom_answer(line):
+    """`A k ok | chrom start end … sum sumsq | …`: the last two fields of every record (stored in single precision) rounded to f32, so
+    that the model's exact integers and the stored values are compared on what the format can hold"""
+    if not line.startswith("A ") or " | " not in line:
+        return line
+    parts = line.split(" | ")
+    out = [parts[0]]
+    for p in parts[1:]:
+        f = p.split(" ")
+        if len(f) >= 8:
+            for i in (-2, -1):
+                try:
+                    f[i] = repr(f32_of(float(f[i])))
+                except ValueError:
+                    pass
+        out.append(" ".join(f))
+    return " | ".join(out)
+
+
 def parse_zoom(line):
     recs = []
     parts = line.split(" | ")
@@ -646,7 +675,8 @@ def oracle_zoom(case, il, bed):
                 if rb != wb:
                     return f"zoom level {res}: record {rs}-{re_} claims {rb} covered bases, the data covers {wb} there"
                 if wb:
-                    for name, got, want in (("min", rmn, wmn), ("max", rmx, wmx), ("sum", rsum, wsum), ("sum of squares", rsq, wsq)):
+                    for name, got, want in (("min", rmn, wmn), ("max", rmx, wmx), ("sum", rsum, f32_of(wsum)), ("sum of squares", rsq, f32_of(wsq))):
+                        # a zoom record stores its sum and sum of squares in single precision: the exact value, rounded once
                         if got != float(want):
                             return f"zoom level {res}: record {rs}-{re_} reports {name} {got}, the data inside it gives {want}"
                 covered += rb
